@@ -1044,8 +1044,8 @@ func guardedSite2(f func() (bool, error)) (res bool, err error, p, site, via str
 		ch <- o
 	}()
 	wd := watchdog
-	if hangs >= 3 && wd > 3*time.Second { // goroutines of earlier hangs still spin: do not wait the full time again and again
-		wd = 3 * time.Second
+	if hangs >= 3 && wd > 8*time.Second { // goroutines of earlier hangs still spin: do not wait the full time again and again
+		wd = 8 * time.Second
 	}
 	t := time.NewTimer(wd)
 	defer t.Stop()
